@@ -2,6 +2,6 @@ P('C04', shards=16, fuzz=[('FuzzDispatch', 90)],
   technique='property-based differential testing against a reference router (candidate-set filtering over the flat route list) + exhaustive small-scope enumeration of tables x paths + native fuzzing',
   text='Generated route tables (literals, :params, *, repeated/trailing slashes, all methods) are registered on the real Mux; every generated request (arbitrary path strings incl. "", "*", // runs, '
        'trailing slashes, :x and * segments, unknown/empty methods) must invoke exactly one handler, never panic, and select the route and bindings of an independent reference router written from the '
-       'documented precedence. All tables of <= 3 routes over a small alphabet x all paths of <= 4 segments are enumerated completely in the thorough tier. Exploration, not proof.',
+       'documented precedence. All tables of <= 3 routes over a small alphabet x all paths of <= 4 segments are enumerated completely in the thorough tier. The segment pools contain the words the trie uses internally (\':param\', \':any\', method tags) and a quarter of the requests carry an alternative percent-encoded spelling of their path in URL.RawPath. Exploration, not proof.',
   note='Trusts the reference router (about 100 lines). Tables containing registrations that panic are out of scope; for paths without a leading slash only "exactly one handler, no panic" is asserted.',
   design='3/C04')
